@@ -554,6 +554,7 @@ def run_sqlite(tier, seed, corpus=None, histories=None, tag="main"):
     keng = run_keng(cases, d, per)
     keng["mismatches"] = {str(k): v for k, v in keng["mismatches"].items()}
     res = {"d": d, "per_shard": per, "idx_map": idx_map, "ksql": ksql, "failure_list": failures, "keng": keng, "executed_migrations": executed,
+           "corpus_dir": corpus,
            "meta": json.load(open(os.path.join(d, "meta.json"))), "gen_s": round(time.time() - t0, 1), "cached": False}
     json.dump(res, open(done, "w"), default=str)
     res["rows"] = rows
@@ -682,6 +683,25 @@ def c02_check(tier, seed):
                                    "migrations_under_Sim_plan_partial_hypothesis(plan_hyp)": len(under), "of_migrations": len(res["idx_map"]),
                                    "plan_hyp_true_but_engine_error_or_panic": len([i for i in under if i in failing_rows]),
                                    "plan_hyp_true_and_catalog_differs": 0, "plan_hyp_eval_errors": len(herr)}
+    # how many plans that use the action kinds admitted last are covered by the theorem's hypotheses
+    def late_kinds(r):
+        out = set()
+        for a, pa in zip(r["actions"], (r.get("plan") or {}).get("actions") or []):
+            if a["kind"] == "RenameColumn":
+                out.add("RenameColumn")
+            if a["kind"] == "DeleteColumn" and any("DROP COLUMN" in q for q in a["sql"]):
+                out.add("DeleteColumn(ALTER TABLE DROP COLUMN path)")
+            if a["kind"] == "RemoveConstraint" and ((pa.get("constraint") or {}).get("type") == "primary_key"):
+                out.add("RemoveConstraint(primary key)")
+        return out
+    under_set = set(under)
+    by_late = {}
+    for i in res["idx_map"]:
+        for k in late_kinds(rows[i]):
+            e = by_late.setdefault(k, {"plans": 0, "under_plan_hyp": 0})
+            e["plans"] += 1
+            e["under_plan_hyp"] += 1 if i in under_set else 0
+    chk.cov["theorem_coverage"]["plans_with_kinds_admitted_last"] = by_late
     # under plan_hyp the theorem leaves only engine errors / generation failures: a catalog difference there contradicts it
     contra = [(fk, i) for (fk, i), f in failures.items() if i in set(under) and f["kind"] in ("catalog-difference", "leftover")]
     chk.cov["theorem_coverage"]["plan_hyp_true_and_catalog_differs"] = len(contra)
@@ -828,12 +848,33 @@ def cell_value(schema, t, c, i, fuel=6):
     return base_value(c["type"], i)
 
 
-def populate(conn, schema, only_empty=True):
+def corpus_rows(tag, corpus_dir=None):
+    """explicit rows of a corpus history: the optional field "rows": {table: [{column: value, ...}, ...]} of the corpus file.
+    They are inserted instead of the generated population the first time the table exists and is empty."""
+    if not tag or not tag.startswith("corpus:"):
+        return None
+    f = os.path.join(corpus_dir or os.path.join(ROOT, "corpus", "sqlite"), tag[len("corpus:"):])
+    try:
+        return json.load(open(f)).get("rows") or None
+    except (OSError, ValueError):
+        return None
+
+
+def populate(conn, schema, only_empty=True, explicit=None):
     """insert rows consistent with the believed schema into every (empty) table; enforcement is switched off while
-    inserting, consistency is by construction and verified with PRAGMA foreign_key_check by the caller"""
+    inserting, consistency is by construction and verified with PRAGMA foreign_key_check by the caller.
+    explicit: {table: [row dict]} given by a corpus file; those tables get exactly these rows."""
     n_ins = 0
     for t in schema:
         if only_empty and conn.execute('SELECT COUNT(*) FROM "%s"' % t["name"]).fetchone()[0] > 0:
+            continue
+        if explicit and t["name"] in explicit:
+            names = [c["name"] for c in t["columns"]]
+            for r in explicit[t["name"]]:
+                use = [n for n in names if n in r]
+                conn.execute('INSERT INTO "%s" (%s) VALUES (%s)' % (t["name"], ", ".join('"%s"' % n for n in use), ", ".join("?" for _ in use)),
+                             [r[n] for n in use])
+                n_ins += 1
             continue
         for i in range(1, row_count(t) + 1):
             names = [c["name"] for c in t["columns"]]
@@ -1008,7 +1049,7 @@ def data_caused(rec, err_message, failing_sql=""):
     return False
 
 
-def oracle_c05_history(recs, fk_on, stop_before=None):
+def oracle_c05_history(recs, fk_on, stop_before=None, explicit=None):
     """populated run of one history. stop_before: step index at which the empty-database run (C02) already fails.
     Returns (first failure or None, number of migrations judged, list of (row idx, pre snapshot, post snapshot | error))"""
     conn = new_db(False)
@@ -1021,7 +1062,7 @@ def oracle_c05_history(recs, fk_on, stop_before=None):
                 break
             conn.execute("PRAGMA foreign_keys=OFF")
             try:
-                populate(conn, rec["baseline"])
+                populate(conn, rec["baseline"], explicit=explicit)
                 bad = conn.execute("PRAGMA foreign_key_check").fetchall()
             except sqlite3.Error:
                 bad = True
@@ -1104,7 +1145,8 @@ def run_rows_stage(res):
     failures, cases, judged, exempt = [], [], 0, collections.Counter()
     for fk in (True, False):
         for h, recs in H.items():
-            f, j, traces = oracle_c05_history(recs, fk, stop_before=c02_stop.get((fk, h)))
+            f, j, traces = oracle_c05_history(recs, fk, stop_before=c02_stop.get((fk, h)),
+                                              explicit=corpus_rows(recs[0].get("tag"), res.get("corpus_dir")))
             judged += j
             if f:
                 if f["kind"].startswith("exempt"):
